@@ -844,12 +844,22 @@ pub fn edit_models(rng: &mut Rng, m: &mut Vec<TableDef>, profile: Profile) -> &'
                 if l.len() >= 2 && l.contains(&bare) { Some(bare) } else { None }
             };
             let n = t.columns.iter().filter(|c| is_label_default(c).is_some()).count();
-            if n >= 2 {
+            if n >= 2 || (n == 1 && rng.chance(1, 2)) {
+                // each such column loses the label its default names; half of the time the label is REPLACED (the enum does not
+                // shrink: one label gone, one or two new ones), the new default is a label present before and after
+                let replace = rng.chance(1, 2);
                 for c in t.columns.iter_mut() {
                     if let Some(bare) = is_label_default(c) {
                         if let ColumnType::Complex(ComplexColumnType::Enum { values: EnumValues::String(l), .. }) = &mut c.r#type {
                             l.retain(|x| *x != bare);
-                            c.default = Some(DefaultValue::String(format!("'{}'", l[0])));
+                            let keep = l[0].clone();
+                            if replace {
+                                l.insert(0, format!("{}_v2", bare));
+                                if rng.chance(1, 2) {
+                                    l.push(format!("{}_v3", bare));
+                                }
+                            }
+                            c.default = Some(DefaultValue::String(format!("'{}'", keep)));
                         }
                     }
                 }
